@@ -185,7 +185,9 @@ func playSrv(m *meter, sc srvScenario) string {
 		if stuck || s.stopped() {
 			where := "?"
 			if s.stopped() {
-				where = spinningAt()
+				var trace string
+				where, trace = spinningAt()
+				m.failDetail = trace
 			}
 			m.fail("C15/hang/srv/"+sc.name+"/"+where, fmt.Sprintf("scenario %s (try %d, class %s): afterwards a new connection does not get through any more; the server side sits in %s", sc.name, tries, class, where))
 			m.end(total)
@@ -406,10 +408,10 @@ func srvFamilies(w *world) []*Family {
 }
 
 // spinningAt names the lemochain-core function in which a running (not blocked) goroutine sits.
-func spinningAt() string {
+func spinningAt() (string, string) {
 	buf := make([]byte, 4<<20)
 	n := stackAll(buf)
-	best := "?"
+	best, trace := "?", ""
 	for _, g := range strings.Split(string(buf[:n]), "\n\n") {
 		m := reGoroutine.FindStringSubmatch(g)
 		if m == nil || !(strings.HasPrefix(m[2], "running") || strings.HasPrefix(m[2], "runnable")) {
@@ -427,8 +429,12 @@ func spinningAt() string {
 		}
 		if len(repo) > 0 {
 			best = strings.Join(repo, " <- ")
+			trace = g
+			if len(trace) > 2500 {
+				trace = trace[:2500]
+			}
 			break
 		}
 	}
-	return best
+	return best, trace
 }
